@@ -91,6 +91,17 @@ CHECKS.update({
                      "extended framing, payload sizes 0..64 KiB, 4 MiB in thorough, repetition runs) are played against the real "
                      "node; after every message a ping must be answered with its nonce.",
                 technique="TLA+ model checking (TLC) + spec-generated sessions replayed on the real node", note=SESS_NOTE),
+    "C16": dict(level="model_checking", engine="blockdownload", ref="3 C16",
+                text="NoSendBlocked, CompleteOnlyAfterOk and the temporal property Triggered ~> Run returned (weak fairness, no "
+                     "timeouts) checked by TLC on BlockDownload.tla over every interleaving of Run, the node's handleBlock, "
+                     "Cancel, Stop and interrupt; AtMostOneTerminal, CompleteOnlyAfterOk, ConcurrencyBound, ListDrains on "
+                     "BlockManage.tla. Every behaviour of BlockDownloadGen is replayed on a real BlockDownloader; the node-side "
+                     "window runs on the real BitcoinNode over net.Pipe with seed-chosen schedules; traces of the real "
+                     "BlockManager with a scripted block source are validated by TLC against BlockManage.tla.",
+                technique="TLA+ model checking incl. liveness (TLC) + behaviour replay + trace validation by TLC",
+                note="Trusted: TLC. The downloader's 2 min / 1 h / 10 min timers are not relied upon. In the call-granularity "
+                     "replay the node side is a mirror of BitcoinNode's request bookkeeping; the real node is exercised by the "
+                     "node-window schedules. Known finding F-C16-1 (silent peer) is reported, not judged."),
     "C20": dict(level="model_checking", engine="peerbook", ref="3 C20",
                 text="NoDuplicates, GetExact, SaveLoadSame, CutKeepsPrefix, ScoreIsSum checked by TLC on PeerBook.tla; simulated "
                      "call sequences replayed on the real StoragePeerRepository with the whole book compared after every call; "
@@ -149,6 +160,8 @@ def main():
              "kind_free_text": "specs/TxManager.tla, TxManagerGen.tla, TxManagerLin.tla, harness `txm` / `txmc`"},
             {"name": "session", "path": "lib/engine_session.py", "serves_properties": ["C13", "C14"],
              "kind_free_text": "specs/PeerSession.tla, PeerSessionGen.tla, harness `sess` (scripted peer over net.Pipe)"},
+            {"name": "blockdownload", "path": "lib/prop_c16.py", "serves_properties": ["C16"],
+             "kind_free_text": "specs/BlockDownload.tla, BlockDownloadGen.tla, BlockManage.tla, BlockManageTrace.tla, harness `bdl` / `bdn` / `bmg`"},
             {"name": "peerbook", "path": "lib/prop_c20.py", "serves_properties": ["C20"],
              "kind_free_text": "specs/PeerBook.tla, PeerBookGen.tla, PeerBookLin.tla, harness `peers` / `peersbytes` / `peersconc`"},
         ],
